@@ -1,5 +1,5 @@
 SPECIFICATION Spec
 CONSTANT Dict <- DictAll
-CONSTANTS Ver = 3 Gaps = 1 SlotSlack = 0 MiniGaps = 1
+CONSTANTS Ver = 3 Gaps = 1 SlotSlack = 0 MiniGaps = 1 Canonical = FALSE
 INVARIANT EmitLayout
 CHECK_DEADLOCK FALSE
